@@ -394,7 +394,7 @@ func (in *Interp) ident(name string) res {
 // assignName is CreateOrSet: constant check, then create or update.
 func (in *Interp) assignName(name string, v val.V, create bool) res {
 	if IsConstant(name) {
-		if old, found := in.env.get(name); found && !val.Equal(old, v) {
+		if old, found := in.env.get(name); found && !sameConstant(old, v) {
 			return fail("attempt to change constant")
 		}
 	}
@@ -405,6 +405,19 @@ func (in *Interp) assignName(name string, v val.V, create bool) res {
 	}
 	in.env.set(name, v, create)
 	return ok(v)
+}
+
+// sameConstant: binding a constant again is allowed when that leaves it what it was: an equal value that also
+// prints the same (0.0 and -0.0 are equal), and for functions the same text from the same scope.
+func sameConstant(old, v val.V) bool {
+	if !val.Equal(old, v) {
+		return false
+	}
+	if old.K == val.Fn {
+		a, b := old.P.(*Closure), v.P.(*Closure)
+		return a.Env == b.Env
+	}
+	return old.Inspect() == v.Inspect()
 }
 
 func (in *Interp) incrDecr(target *gen.Node, op string, prefix bool) res {
@@ -912,6 +925,9 @@ func (in *Interp) builtin(n *gen.Node) res {
 		}
 		if n.S == "println" {
 			sb.WriteByte('\n')
+		}
+		if in.Out.Len()+sb.Len() > 8<<20 {
+			unspecified("huge output")
 		}
 		in.Out.WriteString(sb.String())
 		return ok(nilV())
